@@ -17,6 +17,7 @@ def run(ctx):
                    "expiry hook and the expiry check verdict) must be a behaviour of Pipe.tla, in which TLC has checked NoEarlyClose and "
                    "ClosedBy2T exhaustively: a Tick is only explainable when no timer is overdue, a TimedOut return only when both "
                    "directions were idle for more than T. Non-trivial = a timer fired, back-pressure stalled a direction or a fault was injected.")
+    cov["configuration_files"] = __import__("binconf_jobs").run_c14(ctx)
     return ctx.finish("model_checking", cov, assumptions=[
         "virtual time: tokio paused clock advanced in 10 ms ticks; the timeout is T ticks + 1 ms so that 'fires' means strictly after T ticks, as in real time",
         "the flush after a relayed end-of-stream is not under the idle timer (modelled as such: HalfCloseDeferredToFlush)",
